@@ -67,4 +67,4 @@ def main(tier='quick', seed=0):
     extra = dict(functions_under_contract=['depccg/printer/jigg_xml.py::_ConvertToJiggXML.process', 'depccg/printer/jigg_xml.py::_ConvertToJiggXML.process.traverse',
                                            'depccg/printer/jigg_xml.py::_ConvertToJiggXML.spid (property, inlined)', 'depccg/printer/jigg_xml.py::to_jigg_xml (call-site shape of the converter)', 'depccg/tree.py::Tree.leaves / leaves.rec / __len__ / tokens (len(tree) = number of words)'],
                  bounded_functions=['depccg/printer/jigg_xml.py::to_jigg_xml (token elements)', 'depccg/printer/xml.py::xml_of', 'depccg/tools/reader.py::read_xml / read_jigg_xml', 'ccg2lambda tree builder'])
-    return c12.finish_with(PROP, tier, seed, t0, records, errors, extra, assumptions, ['printers_real.py'], level='exploration')
+    return c12.finish_with(PROP, tier, seed, t0, records, errors, extra, assumptions, ['printers_real.py', 'guess_real.py'], level='exploration')      # guess_real: the labels the readers re-derive come from guess_combinator_by_triplet (incl. its history cases)
